@@ -24,6 +24,7 @@ class Val:
     kind: str  # words | bytes | flatbits | rows | other
     data: object = None  # words: None ; bytes: list of byte label lists per word ; flatbits/rows: label row per word
     note: str = ""
+    dtype: str = ""  # element type of a bit array when known (unpackbits yields uint8)
 
 
 WORD = [f"b{i}" for i in range(16)]
@@ -51,7 +52,7 @@ class LayoutInterp:
                 # x[:, ::-1] is a flip
                 sl = e.slice
                 if isinstance(sl, ast.Tuple) and len(sl.elts) == 2 and _is_full(sl.elts[0]) and _is_reverse(sl.elts[1]):
-                    return Val("rows", list(reversed(base.data)))
+                    return Val("rows", list(reversed(base.data)), dtype=base.dtype)
                 raise AnalysisError(f"layout: subscript {src(e)} on bit rows not modelled")
             return Val("other", note=src(e))
         if isinstance(e, ast.Call):
@@ -63,15 +64,18 @@ class LayoutInterp:
                 return v
             if nm == "astype":
                 v = self.ev(recv)
+                if v.kind in ("rows", "flatbits"):
+                    t = src(args[0]) if args else ""
+                    return Val(v.kind, v.data, v.note, t.split(".")[-1].strip("'\""))
                 if v.kind == "words":
                     t = src(args[0]) if args else ""
                     if "int16" in t:
                         return v
                     raise AnalysisError(f"layout: words cast to {t}")
                 return v
-            if nm in ("int8", "uint8", "bool_") and args:
+            if nm in ("int8", "uint8", "bool_", "int16", "int32", "float32") and args and self.ev(args[0]).kind in ("rows", "flatbits"):
                 v = self.ev(args[0])
-                return v
+                return Val(v.kind, v.data, v.note, nm)
             if nm == "view":
                 v = self.ev(recv)
                 t = src(args[0]) if args else src(kwarg(e, "dtype") or ast.Constant(None))
@@ -96,7 +100,7 @@ class LayoutInterp:
                 row = []
                 for byte in v.data:
                     row += list(byte) if little_bits else list(reversed(byte))
-                return Val("flatbits", row)
+                return Val("flatbits", row, dtype="uint8")
             if nm == "reshape":
                 v = self.ev(recv) if recv is not None else self.ev(args.pop(0))
                 shape = args[0].elts if len(args) == 1 and isinstance(args[0], (ast.Tuple, ast.List)) else args
@@ -114,7 +118,7 @@ class LayoutInterp:
                     # len(x) / x.shape[0] / -1 are accepted forms for the word count
                     if not any(k in src(shape[0]) for k in ("len(", ".shape[0]", ".size")):
                         raise AnalysisError(f"layout: row count {src(shape[0])} not recognised")
-                return Val("rows", list(v.data))
+                return Val("rows", list(v.data), dtype=v.dtype)
             if nm == "roll" and args:
                 v = self.ev(args[0])
                 if v.kind != "rows":
@@ -130,7 +134,7 @@ class LayoutInterp:
                     raise AnalysisError("layout: non-constant roll")
                 k = k % 16
                 row = v.data
-                return Val("rows", row[-k:] + row[:-k] if k else list(row))
+                return Val("rows", row[-k:] + row[:-k] if k else list(row), dtype=v.dtype)
             if nm in ("flip", "fliplr") and args:
                 v = self.ev(args[0])
                 if v.kind != "rows":
@@ -142,7 +146,7 @@ class LayoutInterp:
                     oka, a = const_value(ax)
                     if not oka or a not in (1, -1):
                         raise LayoutViolation(f"np.flip along axis {src(ax)} reverses samples, not bit columns")
-                return Val("rows", list(reversed(v.data)))
+                return Val("rows", list(reversed(v.data)), dtype=v.dtype)
             if nm == "flipud" and args:
                 raise LayoutViolation("flipud reverses the sample order")
             return Val("other", note=src(e))
